@@ -83,7 +83,8 @@ def _login_case(o0, o1, o2, o3, u0, u1, u2, pa, pb, auto, sync, quiet):
     # login() calls spawn._spawn(self, cmd) on the base class explicitly: stub it there
     with patched(PX, time=clk), patched(PS.spawn, _spawn=Script._spawn):
         try:
-            res = s.login('host', 'user', PASSWORD, auto_prompt_reset=auto, sync_original_prompt=sync, quiet=quiet)
+            res = s.login('host', 'user', PASSWORD, auto_prompt_reset=auto, sync_original_prompt=sync, quiet=quiet,
+                          login_timeout=7, terminal_type='vt-test')
         except Skip:
             return SKIP
         except ExceptionPexpect as e:
@@ -102,6 +103,8 @@ def _login_case(o0, o1, o2, o3, u0, u1, u2, pa, pb, auto, sync, quiet):
             n_expect += 1
             if ev[2] is None:
                 return 0                   # an unbounded wait inside login
+            if n_expect == 1 and ev[2] != 7:
+                return 0                   # the first wait is bounded by login_timeout
             lst, i = ev[1], ev[3]
             if len(lst) == 2 and lst[0] is TIMEOUT:
                 if i == 1:
@@ -115,6 +118,9 @@ def _login_case(o0, o1, o2, o3, u0, u1, u2, pa, pb, auto, sync, quiet):
                 pw_sent += 1
                 if not (prev is not None and prev[0] == 'expect' and prev[3] == 2 and len(prev[1]) >= 6):
                     return 0               # password sent without being asked for it
+            if ev[1] == 'vt-test':
+                if not (prev is not None and prev[0] == 'expect' and prev[3] == 4 and len(prev[1]) >= 6):
+                    return 0               # terminal type sent without being asked for it
             if ev[1] == 'yes':
                 yes_sent += 1
                 if not (prev is not None and prev[0] == 'expect' and prev[3] == 0 and len(prev[1]) >= 6):
